@@ -140,9 +140,119 @@ pub fn program(c: usize, prog: &str) -> Script {
             s = s.send_z(sync(b), "P(a,T1) B E S");
             s = s.send_z(sync(be("a", &t(2))), "B(a) E S");
         }
+        g if g.starts_with("gen:") => {
+            for (bytes, label) in gen_batches(c, g) {
+                s = s.send_z(bytes, &label);
+            }
+        }
         _ => panic!("unknown program {}", prog),
     }
     s.terminate()
+}
+
+/// Generated programs `gen:<prefix>:<i.j.k>:<suffix>`: a prefix of preparatory batches, one batch made
+/// of up to three items of the alphabet below, and a probe batch.
+pub const GEN_ITEMS: &[&str] = &["P(a,T1)", "P(a,T2)", "P(b,T2)", "B(a)E", "B(b)E", "D(S,a)", "C(S,a)", "C(S,b)", "P(,T3)B()E"];
+
+fn gen_item(c: usize, i: usize, n: &mut usize) -> Vec<u8> {
+    let t1 = format!("SELECT 'T1' /*by c{}*/", c);
+    let t2 = format!("SELECT 'T2' /*by c{}*/", c);
+    let t3 = format!("SELECT 'T3' /*by c{}*/", c);
+    *n += 1;
+    let tg = tag(c, *n, 0);
+    match i {
+        0 => p("a", &t1, &[]),
+        1 => p("a", &t2, &[]),
+        2 => p("b", &t2, &[]),
+        3 => be("a", &tg),
+        4 => be("b", &tg),
+        5 => wire::describe(b'S', "a"),
+        6 => wire::close(b'S', "a"),
+        7 => wire::close(b'S', "b"),
+        8 => {
+            let mut b = p("", &t3, &[]);
+            b.extend(be("", &tg));
+            b
+        }
+        _ => panic!("gen item"),
+    }
+}
+
+pub fn gen_batches(c: usize, name: &str) -> Vec<(Vec<u8>, String)> {
+    let parts: Vec<&str> = name.split(':').collect();
+    let (prefix, items, suffix) = (parts[1], parts[2], parts[3]);
+    let mut n = 0usize;
+    let mut out = Vec::new();
+    if prefix.contains('a') {
+        out.push((sync(gen_item(c, 0, &mut n)), "P(a,T1) S".to_string()));
+    }
+    if prefix.contains('b') {
+        out.push((sync(gen_item(c, 2, &mut n)), "P(b,T2) S".to_string()));
+    }
+    let idx: Vec<usize> = items.split('.').filter(|x| !x.is_empty()).map(|x| x.parse().unwrap()).collect();
+    let mut b = Vec::new();
+    for i in &idx {
+        b.extend(gen_item(c, *i, &mut n));
+    }
+    out.push((sync(b), format!("{} S", idx.iter().map(|i| GEN_ITEMS[*i]).collect::<Vec<_>>().join(" "))));
+    match suffix {
+        "a" => out.push((sync(gen_item(c, 3, &mut n)), "B(a)E S".to_string())),
+        "b" => out.push((sync(gen_item(c, 4, &mut n)), "B(b)E S".to_string())),
+        _ => {}
+    }
+    out
+}
+
+/// Distinct statement names the generated batch refers to (the recorded cache-size-1 defect needs two).
+fn gen_class(name: &str) -> &'static str {
+    let items = name.split(':').nth(2).unwrap_or("");
+    let idx: Vec<usize> = items.split('.').filter(|x| !x.is_empty()).map(|x| x.parse().unwrap()).collect();
+    let uses_a = idx.iter().any(|i| [0, 1, 3, 5, 6].contains(i));
+    let uses_b = idx.iter().any(|i| [2, 4, 7].contains(i));
+    let uses_u = idx.iter().any(|i| *i == 8);
+    if [uses_a, uses_b, uses_u].iter().filter(|x| **x).count() >= 2 {
+        "gen-multi-name-batch"
+    } else {
+        "gen-single-name-batch"
+    }
+}
+
+/// All generated programs that are valid on a direct connection (no ErrorResponse in the reference).
+pub fn gen_programs(maxlen: usize) -> Vec<String> {
+    let mut seqs: Vec<Vec<usize>> = vec![vec![]];
+    let mut all: Vec<Vec<usize>> = Vec::new();
+    for _ in 0..maxlen {
+        let mut next = Vec::new();
+        for sq in &seqs {
+            for i in 0..GEN_ITEMS.len() {
+                let mut t = sq.clone();
+                t.push(i);
+                next.push(t);
+            }
+        }
+        all.extend(next.iter().cloned());
+        seqs = next;
+    }
+    let mut out = Vec::new();
+    for prefix in ["-", "a", "ab"] {
+        for sq in &all {
+            for suffix in ["-", "a", "b"] {
+                let name = format!("gen:{}:{}:{}", prefix, sq.iter().map(|i| i.to_string()).collect::<Vec<_>>().join("."), suffix);
+                // valid on a direct connection?
+                let mut bytes = Vec::new();
+                for (b, _) in gen_batches(0, &name) {
+                    bytes.extend(b);
+                }
+                let msgs = wire::split_stream(&bytes).0;
+                let reply = crate::mockpg::reference_replies(&msgs, "pgcat");
+                if reply.iter().any(|m| m.code == b'E') {
+                    continue;
+                }
+                out.push(name);
+            }
+        }
+    }
+    out
 }
 
 pub fn scenario(cache: usize, pool_size: u32, progs: &[&str]) -> Scenario {
@@ -175,7 +285,8 @@ pub fn oracle(sc: &Scenario, out: &Outcome) -> Vec<Violation> {
     // (1) every client sees exactly what a direct connection would show
     for c in 0..sc.actors.len() {
         let prog = progs.split('+').nth(c).unwrap_or("");
-        vs.extend(compare_with_reference(log, c, true, "C08.visible", &format!("prog={}:cache={}", prog, cache)));
+        let label = if prog.starts_with("gen:") { gen_class(prog) } else { prog };
+        vs.extend(compare_with_reference(log, c, true, "C08.visible", &format!("prog={}:cache={}", label, cache)));
     }
     // (2) server-side statement table never exceeds the configured size (+1 while replacing)
     for e in log {
@@ -184,7 +295,7 @@ pub fn oracle(sc: &Scenario, out: &Outcome) -> Vec<Violation> {
             if n > cache + 1 {
                 vs.push(v(
                     "C08.server-cache-size",
-                    format!("C08.server-cache-size:cache={}:progs={}", cache, progs),
+                    format!("C08.server-cache-size:cache={}:progs={}", cache, if progs.starts_with("gen:") { gen_class(&progs) } else { &progs }),
                     format!("backend conn {} holds {} pooler statements with prepared_statements_cache_size = {}", conn, n, cache),
                 ));
                 break;
@@ -273,12 +384,19 @@ pub fn build(tier: &str) -> SimCheck {
             }
         }
     }
+    // generated single-client programs: every batch of <= 2 (thorough 3) items after each prefix, with a probe
+    let gens = gen_programs(if thorough { 3 } else { 2 });
+    for cache in [1usize, 2, 8] {
+        for g in &gens {
+            scenarios.push(scenario(cache, 1, &[g.as_str()]));
+        }
+    }
     SimCheck {
         scenarios,
         oracle: Box::new(oracle),
         bound: if thorough { 3 } else { 2 },
         limits: Limits { max_wall_s: if thorough { 1500.0 } else { 50.0 }, ..Default::default() },
-        rule: "scenario = server/pool statement cache size {1,2,8} x pool_size {1,2} x one or two client programs over shared names a/b (prepare then bind across transactions, two names, Describe, Close + re-Parse with new text, two Binds in one batch, LRU order, structurally colliding (text, n, types) encodings, same text with other types, Parse+Bind pairs in one batch, case variants, rejected Parse); all schedules with <= bound deviations; oracle = direct-connection reference per client".into(),
+        rule: "generated: every batch of <= 2 (thorough 3) items over {P(a,T1), P(a,T2), P(b,T2), B(a)E, B(b)E, D(S,a), C(S,a), C(S,b), unnamed P B E} after the prefixes {none, a prepared, a and b prepared}, followed by a probe Bind of a or b, kept when valid on a direct connection, x cache size {1,2,8}; hand-written: scenario = server/pool statement cache size {1,2,8} x pool_size {1,2} x one or two client programs over shared names a/b (prepare then bind across transactions, two names, Describe, Close + re-Parse with new text, two Binds in one batch, LRU order, structurally colliding (text, n, types) encodings, same text with other types, Parse+Bind pairs in one batch, case variants, rejected Parse); all schedules with <= bound deviations; oracle = direct-connection reference per client".into(),
         assumptions: vec!["the reference backend without a pooler defines the direct-connection behaviour; synthesised ParseComplete/CloseComplete may be reordered within a reply".into()],
     }
 }
